@@ -6,3 +6,7 @@ From Coq Require Import List String.
 
 Theorem guards_as_modelled : LifecycleGuards.guards = GuardTable.expected_guards.
 Proof. vm_compute. reflexivity. Qed.
+
+(* ... and no operation handler reaches the crypto engine, a stored object or a State assignment other than as listed *)
+Theorem reach_as_modelled : LifecycleGuards.reach = GuardTable.expected_reach.
+Proof. vm_compute. reflexivity. Qed.
